@@ -128,7 +128,28 @@ def isolated_replay(prop, payload):
     raise env.HarnessError("isolated replay failed: %s" % p.stderr[-400:])
 
 
+def generic_replay(w):
+    """payload kinds every engine shares"""
+    k = w.get("kind")
+    if k == "program":
+        from .oracle import replay_program
+        return replay_program(w)
+    if k == "reject":
+        out = []
+        for cfg in ([tuple(w["cfg"])] if w.get("cfg") else env.ALL_CFGS):
+            try:
+                text = env.convert(w["src"], cfg, 0)
+            except Exception:
+                continue
+            out.append("[%s] conversion returned instead of raising: %s" % (env.cfg_name(cfg), text[:200]))
+        return out
+    return None
+
+
 def _replay(prop, eng, w):
+    g = generic_replay(w)
+    if g is not None:
+        return g
     if getattr(eng, "REPLAY_IN_FRESH_PROCESS", False):
         return isolated_replay(prop, w)
     return eng.replay(w)
@@ -240,7 +261,9 @@ def main(argv):
             with open(a.replay) as f:
                 body = json.load(f)
             payload = body.get("payload", body)
-            diffs = eng.replay(payload)
+            diffs = generic_replay(payload)
+            if diffs is None:
+                diffs = eng.replay(payload)
             if diffs:
                 for d in diffs:
                     print("  " + str(d))
